@@ -45,6 +45,29 @@ def _features(b):
     return f
 
 
+def _gotest(ctx, pkgdirs, *a, **kw):
+    """ctx.gotest, but a crash of the test binary whose goroutine stack goes through keep-core's protocol code (below a
+    third-party frame such as tss-lib, which the engine's own culprit detection does not look through) is reported as a
+    violation: the node would crash on that behaviour."""
+    import re
+    try:
+        return ctx.gotest(*a, **kw)
+    except Exception as ex:
+        txt = str(ex)
+        if type(ex).__name__ != "Broken" or "panic:" not in txt:
+            raise
+        seg = txt[txt.index("panic:"):]
+        for m in re.finditer(r"^\s+(/\S+\.go):(\d+)", seg, re.M):
+            f = m.group(1)
+            if "zz_verif_" in f or "/verif/harness/" in f or "verifkit" in f:
+                break
+            if any(("/" + d + "/") in f for d in pkgdirs) and "_test.go" not in f:
+                ctx.violation("panic:" + f.split("/")[-1], "keep-core protocol code crashed the process while a specification behaviour "
+                              "was executed (%s:%s)" % (f, m.group(2)), {"output": seg[:3000]})
+                return None
+        raise
+
+
 def run(ctx):
     rnd = random.Random(ctx.seed)
     # 1. the model satisfies the property (exhaustive, bounded)
@@ -100,10 +123,11 @@ def run(ctx):
     if len(chosen) < len(want):
         ctx.broken("could not choose behaviours for the real runs")
     ctx.note("real runs: %s" % [(b["cfg"], b["excluded"], _features(b)) for b in chosen])
-    go = ctx.gotest(PKG, "^TestVerif_C07_(States|Execute)$", ["c07_test.go"], inputs={"behaviours.ndjson": beh, "execute.ndjson": chosen, "probes.ndjson": probes},
+    go = _gotest(ctx, ["pkg/tecdsa/dkg", "pkg/protocol/state"], PKG, "^TestVerif_C07_(States|Execute)$", ["c07_test.go"], inputs={"behaviours.ndjson": beh, "execute.ndjson": chosen, "probes.ndjson": probes},
                     extra_overlay=OVERLAY, label="c07", env={"VERIF_KEYGEN_BUDGET_S": ctx.pick(900, 1500)}, timeout=ctx.pick(1800, 9000))
-    ctx.absorb(go)
-    if set(go.reports) != {"states", "execute"} and not ctx.violations:
+    if go is not None:
+        ctx.absorb(go)
+    if go is not None and set(go.reports) != {"states", "execute"} and not ctx.violations:
         ctx.broken("harness reports missing: %s" % sorted(go.reports))
     if not ctx.violations:
         h = ctx.extra.get("harness", {})
